@@ -9,4 +9,7 @@ import (
 func init() { hx.Register("C04", Run) }
 
 // Run generates (or replays) the cases of C04, drives the real client and applies the direct oracle.
-func Run(r *hx.Run, replay []hx.Case) { sendx.RunProp(r, replay, "C04") }
+func Run(r *hx.Run, replay []hx.Case) {
+	sendx.RunProp(r, replay, "C04")
+	sendx.RunDirect(r, replay)
+}
